@@ -241,14 +241,14 @@ func init() {
 				}
 			}
 		}
-		var removedDocs, passes, noopPasses, failedCommits, reloads, latePasses int64
+		var removedDocs, passes, noopPasses, failedCommits, reloads, latePasses, partlyNoop int64
 		par.For(len(cases), r.TooMany, func(ci int) {
 			cs := cases[ci]
 			rep := map[string]interface{}{"case": cs.String()}
 			viol := func(class, what string) { r.Violation(class, what+"; "+cs.String(), rep) }
-			for variant := 0; variant < 4; variant++ {
-				// quick: every case as a plain pass, and each of the three other variants for a third of the cases
-				if c.Quick() && variant > 0 && ci%3 != variant-1 {
+			for variant := 0; variant < 5; variant++ {
+				// quick: every case as a plain pass, and each of the four other variants for a third of the cases
+				if c.Quick() && variant > 0 && ci%3 != (variant-1)%3 {
 					continue
 				}
 				w, err := c19Build(cs, variant == 3)
@@ -256,7 +256,7 @@ func init() {
 					r.Broken("build: %v (%s)", err, cs)
 					return
 				}
-				name := []string{"pass", "pass after a pass whose commit failed", "pass after persist-and-reload", "pass over documents inserted after the indexed but still empty collections were persisted and reloaded"}[variant]
+				name := []string{"pass", "pass after a pass whose commit failed", "pass after persist-and-reload", "pass over documents inserted after the indexed but still empty collections were persisted and reloaded", "pass after an UpdateMany that changes some of the documents and leaves the others as they are"}[variant]
 				switch variant {
 				case 1:
 					// a pass whose commit is rejected by the store changes nothing; the retry behaves like a first pass
@@ -270,6 +270,22 @@ func init() {
 						atomic.AddInt64(&failedCommits, 1)
 					}
 					w.Store.FailNext = 0
+				case 4:
+					// the TTL fields are not touched: the expectations are those of the plain pass
+					for _, coll := range []string{"c", "e"} {
+						cl := w.C("d", coll)
+						var first bson.D
+						if cl.FindOne(w.Ctx, bD()).Decode(&first) != nil {
+							continue
+						}
+						if _, err := cl.UpdateOne(w.Ctx, bD("_id", refmodel.GetPath(first, "_id")), bD("$set", bD("mark", int32(1)))); err != nil {
+							viol("update-before-pass", name+": "+err.Error())
+						}
+						if _, err := cl.UpdateMany(w.Ctx, bD(), bD("$set", bD("mark", int32(1)))); err != nil {
+							viol("update-before-pass", name+": "+err.Error())
+						}
+					}
+					atomic.AddInt64(&partlyNoop, 1)
 				case 2:
 					if err := w.Reload(); err != nil {
 						viol("reload", "reload failed: "+err.Error())
@@ -429,9 +445,10 @@ func init() {
 		r.Set("documents_expected_to_expire", removedDocs)
 		r.Set("failed_commit_variants", failedCommits)
 		r.Set("reload_variants", reloads)
+		r.Set("partly_noop_update_variants", partlyNoop)
 		r.Set("passes_over_later_documents", latePasses)
 		r.Set("distinct_nontrivial", passes-noopPasses)
-		r.Set("grammar_sizes", map[string]interface{}{"field_value_classes": len(vals), "ttl_index_sets": len(ttlSets), "document_sets": len(docSets), "extra_index_kinds": 4, "other_namespace": 2, "variants": 4})
+		r.Set("grammar_sizes", map[string]interface{}{"field_value_classes": len(vals), "ttl_index_sets": len(ttlSets), "document_sets": len(docSets), "extra_index_kinds": 4, "other_namespace": 2, "variants": 5})
 		r.Set("exhaustive", !r.TooMany())
 		var names []string
 		for _, v := range vals {
